@@ -148,6 +148,7 @@ reg(part('memmem_meta', 'src/memmem/searcher.rs', 'memmem::searcher', cfg='x86_6
 reg(part('memmem_reexport', 'src/memmem/mod.rs', 'memmem', only_items=['use crate::memmem::searcher::Pre']))
 
 clone_part('memmem_searcher_rev', 'memmem_searcher')
+clone_part('all_memchr_32', 'all_memchr')
 clone_part('all_twoway_f', 'all_twoway')
 clone_part('memmem_mod_f', 'memmem_mod')
 
@@ -185,6 +186,9 @@ BUILDS = {
                           'generic_packedpair', 'simd128_packedpair'],
                    prelude=P0 + ['prelude/isa.vrs', 'prelude/x_eqrk.vrs', 'prelude/x_pp.vrs']),
     'other': dict(parts=['ext', 'vector', 'generic_memchr', 'all_memchr', 'memchr_top_other', 'root_reexport'], prelude=P0),
+    # 32-bit targets: the same portable wiring with a 4-byte usize (the SWAR chunk is 4 bytes wide)
+    'other32': dict(parts=['ext', 'vector', 'generic_memchr', 'all_memchr_32', 'memchr_top_other', 'root_reexport'], prelude=P0,
+                    usize_bytes=4),
     # unified build: the whole substring stack with the fn pointers defunctionalised (X15); nothing assumed about Searcher
     'full': dict(parts=['ext', 'vector', 'generic_memchr', 'sse2_memchr', 'avx2_memchr', 'all_memchr', 'x86_64_memchr',
                         'memchr_top', 'root_reexport', 'all_mod', 'all_rabinkarp', 'all_packedpair', 'all_default_rank',
